@@ -1,47 +1,463 @@
 //! Deterministic simulation harness for RCE (compiled into the engine crate by build.sh).
+//!
+//!   rce_sim selftest
+//!   rce_sim run <prop> <base_seed> <first> <count> <quick|thorough> [hashfile]
+//!   rce_sim replay <file>
+//!   rce_sim shrink <prop> <base_seed> <index> <quick|thorough> <out_file>
+//!   rce_sim show <prop> <base_seed> <index> <quick|thorough>
 
+pub mod gen;
 pub mod json;
 pub mod kernel;
+pub mod props;
 pub mod refmodel;
 pub mod rng;
+pub mod session;
+pub mod shrink;
+
+use std::io::Write;
+use std::sync::atomic::{AtomicU64, Ordering};
 
 use json::J;
-use kernel::{Action, Plan, KERNEL};
+use kernel::{EvK, Plan, RunRec, KERNEL};
+use props::{Outcome, Stats};
+
+pub fn case_seed(base: u64, prop: &str, index: u64) -> u64 {
+    rng::mix(&[base, rng::hash_str(prop), index])
+}
+
+/// Execute every plan of a case, each from an empty cache.
+pub fn run_case(plans: &[Plan]) -> Vec<RunRec> {
+    plans.iter().map(|p| KERNEL.run(p, false)).collect()
+}
+
+/// The PRNG-free form of a plan after it has been executed once.
+pub fn explicit(plan: &Plan, rec: &RunRec) -> Plan {
+    let mut e = plan.clone();
+    if plan.policy.is_some() {
+        e.preempts = rec.fired.clone();
+    }
+    e.policy = None;
+    e
+}
+
+pub fn case_digest(plans: &[Plan]) -> u64 {
+    let mut parts = vec![];
+    for p in plans {
+        parts.push(rng::hash_str(&p.to_json().to_string()));
+    }
+    rng::mix(&parts)
+}
+
+fn events_json(rec: &RunRec, limit: usize) -> J {
+    let mut v = vec![];
+    for e in rec.events.iter().take(limit) {
+        v.push(J::Str(format!(
+            "step={} T{} clk={}ns ticks={} {:?}",
+            e.step, e.tid, e.clock, e.ticks, e.k
+        )));
+    }
+    if rec.events.len() > limit {
+        v.push(J::Str(format!("... {} more events", rec.events.len() - limit)));
+    }
+    J::Arr(v)
+}
+
+pub fn replay_file_json(prop: &str, plans: &[Plan], out: &Outcome, recs: &[RunRec]) -> J {
+    J::obj()
+        .set("property", prop)
+        .set("plans", plans.iter().map(Plan::to_json).collect::<Vec<_>>())
+        .set(
+            "violations",
+            out.violations.iter().map(props::Violation::to_json).collect::<Vec<_>>(),
+        )
+        .set(
+            "trace_hashes",
+            recs.iter().map(|r| format!("{:016x}", r.trace_hash)).collect::<Vec<_>>(),
+        )
+        .set(
+            "event_log",
+            recs.iter().map(|r| events_json(r, 400)).collect::<Vec<_>>(),
+        )
+}
+
+static PROGRESS: AtomicU64 = AtomicU64::new(0);
+static CUR_INDEX: AtomicU64 = AtomicU64::new(0);
+
+fn start_watchdog(limit_s: u64) {
+    std::thread::spawn(move || {
+        let mut last = PROGRESS.load(Ordering::Relaxed);
+        let mut since = std::time::Instant::now();
+        loop {
+            std::thread::sleep(std::time::Duration::from_millis(500));
+            let now = PROGRESS.load(Ordering::Relaxed);
+            if now != last {
+                last = now;
+                since = std::time::Instant::now();
+            } else if since.elapsed().as_secs() >= limit_s {
+                let i = CUR_INDEX.load(Ordering::Relaxed);
+                println!("{}", J::obj().set("wedged", J::obj().set("index", i)).to_string());
+                let _ = std::io::stdout().flush();
+                std::process::exit(3);
+            }
+        }
+    });
+}
+
+fn sample_json(prop: &str, index: u64, plans: &[Plan], recs: &[RunRec]) -> J {
+    let mut runs = vec![];
+    for (p, r) in plans.iter().zip(recs) {
+        let script: Vec<J> = p.script.iter().map(kernel::Action::to_json).collect();
+        let mut outs = vec![];
+        for e in &r.events {
+            match &e.k {
+                EvK::Out(t) | EvK::Err(t) => {
+                    let t: String = t.chars().take(100).collect();
+                    outs.push(J::Str(format!("step {} T{}: {}", e.step, e.tid, t)));
+                }
+                EvK::Switch { to, label, preempt } => outs.push(J::Str(format!(
+                    "step {} T{} -> T{} at {}{}",
+                    e.step,
+                    e.tid,
+                    to,
+                    label.name(),
+                    if *preempt { " (preemption)" } else { "" }
+                ))),
+                _ => {}
+            }
+            if outs.len() >= 40 {
+                break;
+            }
+        }
+        runs.push(
+            J::obj()
+                .set("script", script)
+                .set("cost_ns", p.cost_ns)
+                .set("stalls", p.stalls.len())
+                .set("policy", gen::policy_name(&p.policy))
+                .set("preemptions_fired", r.fired.len())
+                .set("steps", r.steps)
+                .set("ticks", r.ticks)
+                .set("end", format!("{:?}", r.end))
+                .set("trace", outs),
+        );
+    }
+    J::obj().set("property", prop).set("index", index).set("runs", runs)
+}
+
+fn cmd_run(args: &[String]) {
+    let prop = args[2].as_str();
+    let base: u64 = args[3].parse().expect("base seed");
+    let first: u64 = args[4].parse().expect("first");
+    let count: u64 = args[5].parse().expect("count");
+    let thorough = args.get(6).map(String::as_str) == Some("thorough");
+    let hashfile = args.get(7).cloned();
+    let budget_s: f64 = std::env::var("VERIF_BUDGET_S")
+        .ok()
+        .and_then(|s| s.parse().ok())
+        .unwrap_or(1e12);
+    start_watchdog(120);
+    let t0 = std::time::Instant::now();
+    let mut stats = Stats::default();
+    let mut digests: Vec<u64> = vec![];
+    let mut inter: Vec<u64> = vec![];
+    let mut done = 0u64;
+    let mut violating = 0u64;
+    let mut samples = vec![];
+    let stdout = std::io::stdout();
+    for index in first..first + count {
+        if t0.elapsed().as_secs_f64() > budget_s {
+            break;
+        }
+        CUR_INDEX.store(index, Ordering::Relaxed);
+        let seed = case_seed(base, prop, index);
+        let plans = props::generate(prop, &props::GenCtx { seed, index, thorough });
+        if plans.is_empty() {
+            PROGRESS.fetch_add(1, Ordering::Relaxed);
+            continue;
+        }
+        let recs = run_case(&plans);
+        let out = props::check(prop, &plans, &recs);
+        stats.merge(&out.stats);
+        done += 1;
+        let expl: Vec<Plan> = plans.iter().zip(&recs).map(|(p, r)| explicit(p, r)).collect();
+        if out.nontrivial {
+            digests.push(case_digest(&expl));
+        }
+        for r in &recs {
+            inter.push(r.switch_hash);
+        }
+        // Periodic self-check: the explicit (PRNG-free) plan must reproduce the run exactly.
+        if index % 64 == 0 {
+            let recs2 = run_case(&expl);
+            for (a, b) in recs.iter().zip(&recs2) {
+                if a.trace_hash != b.trace_hash {
+                    println!(
+                        "{}",
+                        J::obj()
+                            .set(
+                                "determinism_failure",
+                                J::obj().set("index", index).set("seed", seed)
+                            )
+                            .to_string()
+                    );
+                    std::process::exit(2);
+                }
+            }
+            stats.inc("selfcheck.explicit_replays_identical");
+        }
+        if !out.violations.is_empty() {
+            violating += 1;
+            let kinds: Vec<J> = out.violations.iter().map(|v| J::Str(v.kind.clone())).collect();
+            let line = J::obj().set(
+                "violation",
+                J::obj()
+                    .set("index", index)
+                    .set("seed", seed)
+                    .set("kinds", kinds)
+                    .set(
+                        "first",
+                        out.violations[0].to_json(),
+                    )
+                    .set("all", out.violations.iter().map(props::Violation::to_json).collect::<Vec<_>>()),
+            );
+            let mut lk = stdout.lock();
+            let _ = writeln!(lk, "{}", line.to_string());
+            let _ = lk.flush();
+        }
+        if samples.len() < 2 && out.nontrivial && (index - first) % 97 == 0 {
+            samples.push(sample_json(prop, index, &plans, &recs));
+        }
+        PROGRESS.fetch_add(1, Ordering::Relaxed);
+    }
+    if let Some(f) = hashfile {
+        let mut bytes = Vec::with_capacity((digests.len() + inter.len()) * 8 + 16);
+        bytes.extend_from_slice(&(digests.len() as u64).to_le_bytes());
+        for d in &digests {
+            bytes.extend_from_slice(&d.to_le_bytes());
+        }
+        bytes.extend_from_slice(&(inter.len() as u64).to_le_bytes());
+        for d in &inter {
+            bytes.extend_from_slice(&d.to_le_bytes());
+        }
+        std::fs::write(f, bytes).expect("write hashfile");
+    }
+    let summary = J::obj().set(
+        "summary",
+        J::obj()
+            .set("property", prop)
+            .set("first", first)
+            .set("count", count)
+            .set("cases", done)
+            .set("violating_cases", violating)
+            .set("wall_s", t0.elapsed().as_secs_f64())
+            .set("stats", stats.to_json())
+            .set("samples", samples),
+    );
+    println!("{}", summary.to_string());
+}
+
+fn cmd_hashes(args: &[String]) {
+    // Determinism proof support: print "index trace_hash..." for each case.
+    let prop = args[2].as_str();
+    let base: u64 = args[3].parse().expect("base seed");
+    let first: u64 = args[4].parse().expect("first");
+    let count: u64 = args[5].parse().expect("count");
+    let thorough = args.get(6).map(String::as_str) == Some("thorough");
+    let reverse = args.get(7).map(String::as_str) == Some("reverse");
+    start_watchdog(120);
+    let idx: Vec<u64> = if reverse {
+        (first..first + count).rev().collect()
+    } else {
+        (first..first + count).collect()
+    };
+    let mut lines = vec![];
+    for index in idx {
+        CUR_INDEX.store(index, Ordering::Relaxed);
+        let seed = case_seed(base, prop, index);
+        let plans = props::generate(prop, &props::GenCtx { seed, index, thorough });
+        let recs = run_case(&plans);
+        let out = props::check(prop, &plans, &recs);
+        let hs: Vec<String> = recs.iter().map(|r| format!("{:016x}", r.trace_hash)).collect();
+        let ev: u64 = recs
+            .iter()
+            .map(|r| {
+                let mut h = 0u64;
+                for e in &r.events {
+                    h = rng::mix(&[h, e.step, u64::from(e.tid), e.clock, e.ticks, rng::hash_str(&format!("{:?}", e.k))]);
+                }
+                h
+            })
+            .fold(0, |a, b| rng::mix(&[a, b]));
+        let vk: Vec<String> = out.violations.iter().map(|v| format!("{}:{}", v.kind, rng::hash_str(&v.detail))).collect();
+        lines.push((index, format!("{index} {} {ev:016x} {}", hs.join(","), vk.join("|"))));
+        PROGRESS.fetch_add(1, Ordering::Relaxed);
+    }
+    lines.sort();
+    for (_, l) in lines {
+        println!("{l}");
+    }
+}
+
+fn cmd_replay(args: &[String]) {
+    let text = std::fs::read_to_string(&args[2]).expect("read replay file");
+    let j = J::parse(&text).expect("parse replay file");
+    let prop = j.s("property");
+    let mut plans = vec![];
+    for p in j.a("plans") {
+        plans.push(Plan::from_json(&p).expect("plan"));
+    }
+    start_watchdog(120);
+    let recs = run_case(&plans);
+    let out = props::check(&prop, &plans, &recs);
+    let verbose = args.get(3).map(String::as_str) == Some("-v");
+    if verbose {
+        for r in &recs {
+            for e in &r.events {
+                eprintln!("{:>8} T{} clk={} tk={} {:?}", e.step, e.tid, e.clock, e.ticks, e.k);
+            }
+        }
+    }
+    let res = J::obj()
+        .set("property", prop.as_str())
+        .set(
+            "violations",
+            out.violations.iter().map(props::Violation::to_json).collect::<Vec<_>>(),
+        )
+        .set(
+            "trace_hashes",
+            recs.iter().map(|r| format!("{:016x}", r.trace_hash)).collect::<Vec<_>>(),
+        )
+        .set("reproduced_recorded", {
+            let want: Vec<String> = j
+                .a("violations")
+                .iter()
+                .map(|v| v.s("kind"))
+                .collect();
+            let got: Vec<String> = out.violations.iter().map(|v| v.kind.clone()).collect();
+            let hashes_want: Vec<String> = j.a("trace_hashes").iter().filter_map(|x| x.as_str().map(str::to_string)).collect();
+            let hashes_got: Vec<String> = recs.iter().map(|r| format!("{:016x}", r.trace_hash)).collect();
+            want == got && (hashes_want.is_empty() || hashes_want == hashes_got)
+        });
+    println!("{}", res.to_string());
+    if !out.violations.is_empty() {
+        std::process::exit(1);
+    }
+}
+
+fn cmd_shrink(args: &[String]) {
+    let prop = args[2].as_str();
+    let base: u64 = args[3].parse().expect("base seed");
+    let index: u64 = args[4].parse().expect("index");
+    let thorough = args.get(5).map(String::as_str) == Some("thorough");
+    let outfile = args[6].as_str();
+    start_watchdog(300);
+    let seed = case_seed(base, prop, index);
+    let plans = props::generate(prop, &props::GenCtx { seed, index, thorough });
+    let recs = run_case(&plans);
+    let out = props::check(prop, &plans, &recs);
+    if out.violations.is_empty() {
+        println!("{}", J::obj().set("shrink", "no_violation").to_string());
+        std::process::exit(2);
+    }
+    let expl: Vec<Plan> = plans.iter().zip(&recs).map(|(p, r)| explicit(p, r)).collect();
+    // the explicit plan must reproduce it
+    let recs2 = run_case(&expl);
+    let out2 = props::check(prop, &expl, &recs2);
+    let same = recs.iter().zip(&recs2).all(|(a, b)| a.trace_hash == b.trace_hash)
+        && out.violations == out2.violations;
+    if !same {
+        println!("{}", J::obj().set("shrink", "explicit_plan_diverged").to_string());
+        std::process::exit(2);
+    }
+    let target = match args.get(7) {
+        Some(k) if out.violations.iter().any(|v| &v.kind == k) => k.clone(),
+        Some(k) => {
+            println!("{}", J::obj().set("shrink", "kind_not_found").set("kind", k.as_str()).to_string());
+            std::process::exit(2);
+        }
+        None => out.violations[0].kind.clone(),
+    };
+    let (min_plans, tried) = shrink::minimise(prop, expl, &target);
+    let recs3 = run_case(&min_plans);
+    let out3 = props::check(prop, &min_plans, &recs3);
+    let j = replay_file_json(prop, &min_plans, &out3, &recs3)
+        .set("seed", seed)
+        .set("index", index)
+        .set("base_seed", base)
+        .set("minimised_for", target.as_str())
+        .set("shrink_candidates_tried", tried);
+    std::fs::write(outfile, j.to_string()).expect("write replay file");
+    println!(
+        "{}",
+        J::obj()
+            .set("shrink", "ok")
+            .set("file", outfile)
+            .set("kind", target.as_str())
+            .set(
+                "detail",
+                out3.violations
+                    .iter()
+                    .find(|v| v.kind == target)
+                    .map_or(String::new(), |v| v.detail.clone()),
+            )
+            .set("script_len", min_plans.iter().map(|p| p.script.len()).sum::<usize>())
+            .set("preemptions", min_plans.iter().map(|p| p.preempts.len()).sum::<usize>())
+            .set("tried", tried)
+            .to_string()
+    );
+}
+
+fn cmd_show(args: &[String]) {
+    let prop = args[2].as_str();
+    let base: u64 = args[3].parse().expect("base seed");
+    let index: u64 = args[4].parse().expect("index");
+    let thorough = args.get(5).map(String::as_str) == Some("thorough");
+    let seed = case_seed(base, prop, index);
+    let plans = props::generate(prop, &props::GenCtx { seed, index, thorough });
+    let recs = run_case(&plans);
+    let out = props::check(prop, &plans, &recs);
+    for (p, r) in plans.iter().zip(&recs) {
+        println!("PLAN {}", explicit(p, r).to_json().to_string());
+        for e in &r.events {
+            println!("{:>8} T{} clk={} tk={} tt={} ty={} {:?}", e.step, e.tid, e.clock, e.ticks, e.tticks, e.tyields, e.k);
+        }
+        println!("end={:?} steps={} ticks={} hash={:016x}", r.end, r.steps, r.ticks, r.trace_hash);
+    }
+    for v in &out.violations {
+        println!("VIOLATION {} :: {}", v.kind, v.detail);
+    }
+    println!("STATS {}", out.stats.to_json().to_string());
+}
 
 pub fn main() {
     let args: Vec<String> = std::env::args().collect();
     let cmd = args.get(1).map(String::as_str).unwrap_or("");
     match cmd {
-        "selftest" => match refmodel::selftest() {
-            Ok(n) => println!("{}", J::obj().set("selftest", "ok").set("perft_nodes", n).to_string()),
-            Err(e) => {
-                eprintln!("reference model self-test FAILED: {e}");
-                std::process::exit(2);
+        "selftest" => {
+            let r = refmodel::selftest().and_then(|n| gen::corpus_selftest().map(|c| (n, c)));
+            match r {
+                Ok((n, c)) => println!(
+                    "{}",
+                    J::obj()
+                        .set("selftest", "ok")
+                        .set("perft_nodes", n)
+                        .set("corpus_positions", c)
+                        .to_string()
+                ),
+                Err(e) => {
+                    eprintln!("reference model self-test FAILED: {e}");
+                    std::process::exit(2);
+                }
             }
-        },
-        "smoke" => {
-            let mut plan = Plan::new("smoke", 1);
-            plan.script = vec![
-                Action::send("uci"),
-                Action::send("isready"),
-                Action::send("position startpos moves e2e4"),
-                Action::send("go depth 3"),
-                Action::WaitBestmove,
-                Action::send("go infinite"),
-                Action::DelaySteps(2000),
-                Action::send("stop"),
-                Action::WaitBestmove,
-                Action::send("quit"),
-            ];
-            let t0 = std::time::Instant::now();
-            let rec = KERNEL.run(&plan, false);
-            for e in &rec.events {
-                println!("{:>8} T{} clk={} tk={} {:?}", e.step, e.tid, e.clock, e.ticks, e.k);
-            }
-            println!("end={:?} steps={} ticks={} hash={:x} wall={:?}", rec.end, rec.steps, rec.ticks, rec.trace_hash, t0.elapsed());
         }
+        "run" => cmd_run(&args),
+        "hashes" => cmd_hashes(&args),
+        "replay" => cmd_replay(&args),
+        "shrink" => cmd_shrink(&args),
+        "show" => cmd_show(&args),
         _ => {
-            eprintln!("usage: rce_sim selftest|smoke|run|replay ...");
+            eprintln!("usage: rce_sim selftest|run|hashes|replay|shrink|show ...");
             std::process::exit(2);
         }
     }
